@@ -189,7 +189,15 @@ def r5(ctx: Ctx) -> None:
     kappa = lp[1]
     ctx.site(f.where, "all spring constants 0.4 .. 1.5 are tried", iter=show(lp[2]))
     it = lp[2]
-    ok = it[0] == "comp" and it[3][0][1] == ("c", ("g", "range"), (k_num(4), k_num(16)), ()) and it[3][0][2] == K_TRUE
+    # in the normal form a loop over [i/10 for i in range(4, 16)] is the loop over range(4, 16) with i/10 in place of the element
+    tenth = (to_poly(lp[1]) * Poly.const(__import__("fractions").Fraction(1, 10))).to_s()
+    ok = it == ("c", ("g", "range"), (k_num(4), k_num(16)), ()) and contains(lp[3], tenth) \
+        and not contains(Sigma(raw_subst={tenth: ("k", "kappa")}).apply(lp[3]), lp[1])
+    if ok:
+        kappa = tenth
+    else:
+        ok = it[0] == "comp" and it[3][0][1] == ("c", ("g", "range"), (k_num(4), k_num(16)), ()) and it[3][0][2] == K_TRUE \
+            and it[2] == ((to_poly(("b", 1, 0)) * Poly.const(__import__("fractions").Fraction(1, 10))).to_s(),)
     if not ok:
         ctx.report(f.where, f"kappa-list {show(it)}", "the list of spring constants is not [i/10 for i in range(4, 16)]", lineno=f.node.lineno)
     body = deref(lp[3], defs)
